@@ -16,6 +16,7 @@ import Driver.SemA
 import Driver.SemB
 import Driver.SemC
 import Driver.SemK
+import Driver.SemP
 import Driver.Ex
 import Driver.TG
 import Driver.Misc
@@ -188,6 +189,7 @@ def handle (line : String) : String :=
   | "semb" :: _ => DSemB.handle (restOf line)
   | "semc" :: _ => DSemC.handle (restOf line)
   | "semk" :: _ => DSemK.handle (restOf line)
+  | "semp" :: _ => DSemP.handle (restOf line)
   | "ex" :: _ => DEx.handle line
   | "tg" :: _ => DTG.handle line
   | "ast" :: r => DMisc.ast r
